@@ -77,13 +77,13 @@ func main() {
 		tier   = flag.String("tier", "quick", "quick|thorough")
 		outp   = flag.String("out", "", "output file (required)")
 		repo   = flag.String("repo", "/repo", "cff source tree used for the cff binary and the scratch modules' replace")
-		only   = flag.String("sections", "BT,AL,ES,GF,DT", "comma-separated subset of sections to run")
+		only   = flag.String("sections", "BT,AL,ES,GF,DT,MN", "comma-separated subset of sections to run")
 		jobs   = flag.Int("j", 0, "number of concurrent cff processes (0 = 1.5 x number of CPUs)")
 		keepit = flag.Bool("keep", false, "keep the scratch directory (debugging)")
 	)
 	flag.Parse()
 	if *outp == "" || (*tier != "quick" && *tier != "thorough") {
-		fmt.Fprintln(os.Stderr, "usage: textrun -seed S -tier quick|thorough -out FILE [-repo DIR] [-sections BT,AL,ES,GF,DT]")
+		fmt.Fprintln(os.Stderr, "usage: textrun -seed S -tier quick|thorough -out FILE [-repo DIR] [-sections BT,AL,ES,GF,DT,MN]")
 		os.Exit(2)
 	}
 	maxWorkers = *jobs
@@ -132,7 +132,7 @@ func main() {
 		run  func(*config, *out) error
 	}
 	all := []section{
-		{"BT", runBT}, {"AL", runAL}, {"ES", runES}, {"GF", runGF}, {"DT", runDT},
+		{"BT", runBT}, {"AL", runAL}, {"ES", runES}, {"GF", runGF}, {"DT", runDT}, {"MN", runMN},
 	}
 
 	var total out
